@@ -29,7 +29,11 @@ def sameKV (a b : KV) : Bool := canon a == canon b
 
 /-- One stored benchmark line in the vocabulary of the property. -/
 structure Line where
-  labels : KV      -- file labels, name-derived labels and server labels together
+  labels : KV      -- file labels, name-derivedL labels and server labels together (what queries see)
+  /-- the two groups of a result's labels as the public `Result` type presents them: persistentL
+  labels (file and server) and labels derived from the benchmark name -/
+  persistentL : KV := []
+  derivedL : KV := []
   content : Bytes
   deriving Repr
 
@@ -123,7 +127,9 @@ def fileLines (uc : UC) (server : KV) (data : Bytes) : List Line :=
       else if v.isEmpty then (del st.1 k, st.2) else (put st.1 k v, st.2)
     | none =>
       match benchLine uc line with
-      | some full => (st.1, st.2 ++ [{ labels := st.1 ++ nameLabels full, content := line }])
+      | some full =>
+        let ln : Line := ⟨st.1 ++ nameLabels full, st.1, nameLabels full, line⟩
+        (st.1, st.2 ++ [ln])
       | none => st
   ((textLines data).foldl step (server, [])).2
 
@@ -166,13 +172,17 @@ def Term.refusable (t : Term) : Bool :=
 
 def matchesAll (ts : List Term) (l : Line) : Bool := ts.all (·.sat l.labels)
 
-/-! ### stored records: runs of consecutive lines with identical labels -/
+/-! ### stored records: runs of consecutive lines with identical labels (both groups of the `Result`
+type identical: a key that moves from the file configuration into the benchmark name, with the same
+value, starts a new record) -/
 
 def runs : List Line → List (List Line)
   | [] => []
   | l :: rest =>
     match runs rest with
-    | (m :: r) :: rs => if sameKV l.labels m.labels then (l :: m :: r) :: rs else [l] :: (m :: r) :: rs
+    | (m :: r) :: rs =>
+      if sameKV l.persistentL m.persistentL && sameKV l.derivedL m.derivedL then (l :: m :: r) :: rs
+      else [l] :: (m :: r) :: rs
     | rs => [l] :: rs
 
 /-- number of stored records of an upload whose labels satisfy the query -/
